@@ -219,7 +219,8 @@ def project(t, m, pm):
 def check_resample(t):
     tm = np.asarray(t.flight_time, float)
     own = t.interpolate_time(tm)
-    pts = ['aircraft_mass', 'fuel_mass', 'ground_distance', 'altitude', 'latitude', 'fuel_flow', 'true_airspeed', 'rate_of_climb']
+    # every per-point field, longitudes across the antimeridian included (linear between neighbouring points as stored)
+    pts = ['aircraft_mass', 'fuel_mass', 'ground_distance', 'altitude', 'latitude', 'longitude', 'fuel_flow', 'true_airspeed', 'ground_speed', 'rate_of_climb', 'flight_level']
     for f in pts:
         a, b = np.asarray(getattr(t, f), float), np.asarray(getattr(own, f), float)
         for i in range(len(tm)):
